@@ -691,6 +691,13 @@ impl Network {
                             continue;
                         }
 
+                        if scratchpad.network_address().to_record_key() != *key {
+                            warn!(
+                                "Rejecting Scratchpad for {pretty_key} that belongs to another address during split record error"
+                            );
+                            continue;
+                        }
+
                         if let Some(old) = &valid_scratchpad {
                             if old.count() >= scratchpad.count() {
                                 info!(
